@@ -33,7 +33,10 @@ CHECKS = {
  'C14': dict(engine='E4-enum', category='exploration', design='DESIGN.md 6, 9/C14',
    technique='small-scope exhaustive input enumeration of the real encoders/decoders against independent references (bounded exhaustive exploration)',
    text='All values of 8/16-bit integers and the boundary set of wider types, all byte strings up to length 2-3 plus structural alphabets through Base64/hex/XML/URL/CRC, each compared with an independent reference and round-tripped.',
-   note='Values outside the enumerated alphabets/lengths are not covered; references: snprintf, bit-accumulator Base64, bitwise CRC written in the harness.'),
+   note='Values outside the enumerated alphabets/lengths are not covered; references: snprintf, bit-accumulator Base64, bitwise CRC written in the harness.'), 'C20': dict(engine='E4-enum', category='exploration', design='DESIGN.md 6, 9/C20, harness/C20/NOTES.md',
+   technique='complete walk of a finite RFC 7230/3986 grammar (request lines, status lines, header blocks, all single smuggling edits) through the real parser, compared with an independent ABNF reference parser (bounded exhaustive exploration)',
+   text='Every request line / status line / header block the finite generator can produce (quick: blocks of <=3 fields, thorough <=4) plus every single edit introducing a listed smuggling pattern is parsed by the real http.c; returned spans must equal an independent reference parser and be sub-spans of the input, header lookup must return exactly the case-insensitively matching fields (OWS trimmed, obs-fold honoured) with the true count, and http_req_sec_chk must reject iff a listed pattern is present.',
+   note='Constructs outside the generator (userinfo, fragments, pct-encoding, obs-text, lower-case extension methods, octets >= 0x80) are not covered; path trimming is demanded exactly as the comments in http.c document it; see harness/C20/NOTES.md for the decisions.'),
 }
 
 REASON_WIP = 'check not finished yet in this session (harness under construction; see DESIGN.md section 13)'
